@@ -13,6 +13,7 @@ import (
 
 	h2c "github.com/bronlabs/bron-crypto/pkg/base/curves/impl/rfc9380"
 	"verif/harness/vlib"
+	"verif/harness/vlib/refcurve"
 )
 
 // Pinned copies of the published vectors (RFC 9380 appendix J / K, the pasta_curves crate, the
@@ -165,6 +166,19 @@ func TestRFC9380Vectors(t *testing.T) {
 				t.Fatalf("%s: library %v, published P = (%x, %x)", in, got, [][]byte(v.P.X), [][]byte(v.P.Y))
 			}
 			h2cMember(t, tg, got, in)
+			// the independent implementations used as oracles by the differential tests
+			// reproduce the published points as well
+			if s.ro && (s.target == "p256" || s.target == "curve25519") {
+				var r refcurve.Point
+				if s.target == "p256" {
+					r, _, _, err = refcurve.HashToCurveP256([]byte(v.Msg), []byte(f.Dst))
+				} else {
+					r, _, err = h2cHashToCurve25519([]byte(v.Msg), []byte(f.Dst))
+				}
+				if err != nil || r.X.Cmp(new(big.Int).SetBytes(v.P.X[0])) != 0 || r.Y.Cmp(new(big.Int).SetBytes(v.P.Y[0])) != 0 {
+					t.Fatalf("%s: the reference implementation gives %v, not the published point (%v)", in, r, err)
+				}
+			}
 			// u: the published hash_to_field outputs, where the file has them
 			checkedU := false
 			if len(v.U) > 0 && v.U[0].present() {
